@@ -245,11 +245,11 @@ def trimJsonSpace (cs : List Char) : List Char :=
   ((cs.dropWhile isJsonSpace).reverse.dropWhile isJsonSpace).reverse
 
 /-- `json.Unmarshal([]byte(data), &number)` with `number *MonetaryInt`: the text
-    `null` leaves a nil pointer, a JSON integer literal is read by `big.Int`,
-    every other text (other JSON or not JSON at all) is an error. -/
+    `null` would leave a nil pointer and is refused, a JSON integer literal is read
+    by `big.Int`, every other text (other JSON or not JSON at all) is an error. -/
 def parseNumberVar (cs : List Char) : Dec (Option Int) :=
   let t := trimJsonSpace cs
-  if t = "null".toList then .ok none
+  if t = "null".toList then .error "number must not be null"   -- (was: a nil *MonetaryInt, before the fix of json.go)
   else match parseJsonInt t with
     | some i => .ok (some i)
     | none => .error "number"
